@@ -69,7 +69,10 @@ def hdocs(cfg):
     clj = cfg in ("clj", "both")
     exp = cfg in ("exp", "both")
     esc = lambda i: b"\"s%d\\n\"" % i
-    docs = [b"\n" * 64 + b")", b"\n" * 65 + b")", b"\n" * 129 + b"]", b"\n" * 1100 + b"[1 2", b"[\"" + b"x" * 3000 + b"\\n\" \"" + b"y" * 5000 + b"\\t\"]",
+    # an equal pair whose lazy decode needs a block of its own (> 64 KiB): the verdict of the duplicate check must not survive a refused decode
+    big = b"x" * 70000
+    docs = [b"#{\"" + big + b"\\t\" \"" + big + b"\t\"}", b"{\"" + big + b"\\t\" 1 \"" + big + b"\t\" 2}",
+            b"\n" * 64 + b")", b"\n" * 65 + b")", b"\n" * 129 + b"]", b"\n" * 1100 + b"[1 2", b"[\"" + b"x" * 3000 + b"\\n\" \"" + b"y" * 5000 + b"\\t\"]",
             b"[0." + b"0" * 600 + b"1]", b"1" + b"0" * 600 + b"e2", b"0." + b"1" * 520 + b"x", b"[" * 101 + b"]" * 101, b"[" * 100 + b"]" * 100]
     docs += [b"#{" + b" ".join(esc(i) for i in range(n)) + b"}" for n in (2, 3, 17, 18, 19, 25)]
     docs += [b"#{\"a\\nb\" \"a\nb\"}", b"{\"a\\nb\" 1 \"a\nb\" 2}", b"#{\"a\\n\" \"a\\n\"}", b"#{\"a\\q\" \"b\\q\" \"a\\q\"}", b"#{[\"a\\n\" 1] [\"a\\n\" 2] (\"a\\n\" 2)}",
